@@ -1,6 +1,6 @@
 """BlockManager family: C01 (stored chain always valid), C02 (reorganisation
 rules and completeness), C19 (chain events mirror the committed chain)."""
-import json, os, random, shutil, sys, time
+import json, os, random, shutil, subprocess, sys, time
 from .. import core, family
 from . import bm_universe
 
@@ -21,7 +21,12 @@ CODE_VERSION = json.load(open(os.path.join(SPEC, "code_version.json")))
 CONFIGS = {
     "quick": [dict(universe="u1", MaxMsgs=3, MaxRestarts=0, MaxFaults=0)],
     "thorough": [dict(universe="u1", MaxMsgs=3, MaxRestarts=1, MaxFaults=1),
+                 dict(universe="deep", MaxMsgs=3, MaxRestarts=1, MaxFaults=0),
+                 dict(universe="retarget", MaxMsgs=3, MaxRestarts=1, MaxFaults=0),
                  dict(universe="quick", MaxMsgs=4, MaxRestarts=1, MaxFaults=0)],
+    "deep": [dict(universe="deep", MaxMsgs=3, MaxRestarts=0, MaxFaults=0)],
+    "retarget": [dict(universe="retarget", MaxMsgs=3, MaxRestarts=0, MaxFaults=0)],
+    "faults": [dict(universe="u1", MaxMsgs=3, MaxRestarts=0, MaxFaults=1)],
 }
 _COMMON_NOTE = ("Bounded: header universe of 10 (quick) / 13 (thorough) headers incl. forks below/at/above a checkpoint, "
                 "tie / heavier-by-one branches, an invalid header with a valid child; 2 peers; every connected batch of <= 3 "
@@ -77,6 +82,8 @@ def label(a):
         for i, x in enumerate(b[:-1]):
             if x in _CP.get("ids", ()):
                 tag = ";xcp"
+        if a.get("k") == 1:
+            tag += ";writefails"
         s += "(p%d,%s%s)" % (a["p"], "-".join(str(x) for x in b), tag)
     elif s == "Inv":
         s += "(p%d,%s)" % (a["p"], a["batch"][0] if a["batch"] else "")
@@ -99,6 +106,24 @@ def run_one(prop_id, cfg, rng, sc, replay=None):
     consts.update(CODE_VERSION)
     _CP["ids"] = set(uni["checkpoints"].values())
     os.makedirs(sc)
+    binary = os.path.join(os.path.dirname(sc), "neutrino.test")
+    if not os.path.exists(binary):
+        family.build_overlay_test(PKG, [DRIVER], binary)
+    if uni.get("auto_work"):
+        # difficulties follow from the retarget rules: let the generator mine the
+        # universe once and report the work of every header before TLC runs
+        uf0 = os.path.join(sc, "universe0.json")
+        json.dump(uni, open(uf0, "w"))
+        env = core.go_env()
+        env.update({"VERIF_UNIVERSE": uf0, "VERIF_OUT": os.path.join(sc, "gen.json")})
+        env.pop("VERIF_PATHS", None)
+        p = subprocess.run([binary, "-test.run", "^TestVerifBlockManagerGen$", "-test.count=1"], cwd=sc, env=env,
+                           stdout=subprocess.PIPE, stderr=subprocess.STDOUT, text=True)
+        if p.returncode != 0 or not os.path.exists(os.path.join(sc, "gen.json")):
+            raise core.MachineryError("universe generator failed:\n" + p.stdout[-3000:])
+        gen = json.load(open(os.path.join(sc, "gen.json")))
+        for h in uni["headers"]:
+            h["work"] = gen["work"][h["id"]]
     udir = os.path.join(sc, "uni")
     os.makedirs(udir)
     open(os.path.join(udir, "Universe.tla"), "w").write(bm_universe.tla(uni))
@@ -120,9 +145,6 @@ def run_one(prop_id, cfg, rng, sc, replay=None):
         g = core.Graph.load(tlc)
         paths, unreach = core.edge_cover(g, rng)
         core.write_paths(g, paths, pf)
-    binary = os.path.join(os.path.dirname(sc), "neutrino.test")
-    if not os.path.exists(binary):
-        family.build_overlay_test(PKG, [DRIVER], binary)
     observed, log = family.run_driver(binary, "TestVerifBlockManagerReplay", pf,
                                       os.path.join(sc, "obs.ndjson"), sc, timeout=7200,
                                       env_extra={"VERIF_UNIVERSE": uf})
@@ -146,6 +168,9 @@ def run(prop_id, tier, seed, replay=None):
             cfgs = [dict(universe=rd.get("universe", "u1"), MaxMsgs=1, MaxRestarts=0, MaxFaults=0)]
         else:
             cfgs = CONFIGS[tier]
+            if tier == "quick" and prop_id in ("C01", "C02"):
+                # validity under other chain parameters / deep forks matters to these two
+                cfgs = cfgs + CONFIGS["deep"] + CONFIGS["retarget"]
         runs = [run_one(prop_id, c, rng, os.path.join(sc, "r%d" % i), replay) for i, c in enumerate(cfgs)]
         rc = 0
         known = {}
